@@ -800,8 +800,9 @@ def shp3(units, R, names=None):
         by_index = len(fn.params) == 2 and u.ty(fn.params[1]['ty'])['c'] == 'int'
         by_key = len(fn.params) >= 2 and u.ty(fn.params[1]['ty'])['c'] == 'ptr'
         signed = by_index and not u.ty(fn.params[1]['ty']).get('unsigned')
+        deep = _max_len() > 6          # thorough tier: longer lists, more members
         if by_index:
-            for n in range(0, 6):
+            for n in range(0, 9 if deep else 6):
                 for idx in range(-1 if signed else 0, n + 3):
                     n_cases += 1
                     heap = Heap()
@@ -826,7 +827,7 @@ def shp3(units, R, names=None):
         elif by_key:
             alphabet = [b'a', b'A', b'b']
             flagged = len(fn.params) >= 3
-            for n in range(0, 5):
+            for n in range(0, 6 if deep else 5):
                 for keys in itertools.product(alphabet, repeat=n):
                     for name in (b'a', b'A', b'b', b'c'):
                         for cs in ((1, 0) if flagged else (1,)):
@@ -850,7 +851,7 @@ def shp3(units, R, names=None):
                             except ShapeViolation as v:
                                 bad.append('keys %s, name %s, case_sensitive=%d: %s' % (','.join(k.decode() for k in keys), name.decode(), cs, v))
         else:
-            for n in range(0, 6):
+            for n in range(0, 9 if deep else 6):
                 n_cases += 1
                 heap = Heap()
                 parent, el = _make_list(heap, n)
@@ -929,7 +930,7 @@ def shp4(units, R, fname='cJSON_Duplicate'):
                     bad.append(str(v))
     import itertools
     for parent_kind in (32, 64):
-        for nkids in range(1, 4):
+        for nkids in range(1, 5 if _max_len() > 6 else 4):
             for kinds in itertools.product((8, 16, 128, 2), repeat=nkids):
                 for recurse in (1, 0):
                     n_cases += 1
@@ -1029,13 +1030,14 @@ def shp5(units, R, fname='cJSON_Compare'):
             return True
         return covered(x[1], y[1]) and covered(y[1], x[1])
     small = [(8, 1.0), (16, b'x'), (2, None)]
+    deep = _max_len() > 6              # thorough tier: arrays of three, objects of three members
     trees = list(scal)
-    for n in range(0, 3):
+    for n in range(0, 4 if deep else 3):
         trees += [(32, combo) for combo in itertools.product(small, repeat=n)]
     trees.append((32, ((8, 1.0), (16, b'x'), (2, None))))
     trees.append((32, ((8, 1.0), (16, b'x'), (1, None))))
     keys = [b'a', b'A', b'b']
-    for n in range(0, 3):
+    for n in range(0, 4 if deep else 3):
         for ks in itertools.permutations(keys, n):
             for vals in itertools.product(small[:2], repeat=n):
                 trees.append((64, tuple(zip(ks, vals))))
@@ -1046,7 +1048,7 @@ def shp5(units, R, fname='cJSON_Compare'):
     n_cases = 0
     for x in trees:
         for y in trees:
-            if x[0] in (32, 64) and y[0] in (32, 64) and x[0] == y[0] and len(x[1]) + len(y[1]) > 4:
+            if x[0] in (32, 64) and y[0] in (32, 64) and x[0] == y[0] and len(x[1]) + len(y[1]) > (6 if deep else 4):
                 continue
             for cs in (1, 0):
                 n_cases += 1
